@@ -1,4 +1,4 @@
-from .common import grid_plan, need_classes
+from .common import pytest_contracts_job, grid_plan, need_classes
 
 LEVEL = "exploration"
 RULE = (
@@ -10,6 +10,13 @@ ASSUMPTIONS = ["eq.psi reference flux function", "tolerance derived from the run
 
 
 def plan(tier, seed):
+    p_ = _plan(tier, seed)
+    if tier == "thorough":
+        p_.setdefault("jobs", []).append(pytest_contracts_job())
+    return p_
+
+
+def _plan(tier, seed):
     return grid_plan(tier, seed, "C04", filt=lambda s: s.get("opts", {}).get("orthogonal", True) and s.get("kind", "tok") in ("tok", "circ"))
 
 
